@@ -27,11 +27,11 @@ pub open spec fn i32max() -> int { 0x7fff_ffff }
 /// representation invariant of Matrix (property C15: "its element count equals rows × columns");
 /// the i32 bound is derived from the code: every shape funnels through i32 arithmetic in reshape_mut.
 pub open spec fn wf(m: Matrix) -> bool {
-    m.nrows * m.ncols == m.data.v@.len() && m.data.v@.len() <= i32max()
+    m.nrows * m.ncols == m.data.v@.len() && m.data.v@.len() <= i32max() && m.nrows <= i32max() && m.ncols <= i32max()
 }
 /// "an impossible shape is rejected": exactly these (len, rows, cols) requests are possible
 pub open spec fn shape_ok(len: int, r: int, c: int) -> bool {
-    (r > 0 && c > 0 && r * c == len)
+    (r >= 0 && c >= 0 && r * c == len)
     || (r == -1 && c > 0 && len % c == 0)
     || (c == -1 && r > 0 && len % r == 0)
 }
@@ -165,8 +165,7 @@ reg(Fn(IM + 'reshape_mut', ret='r', valid=RM_VALID,
 def _fill(name, val):
     return Fn(IM + name, ret='m',
               requires=['core.%s.range:: nrows <= i32max() && ncols <= i32max() && nrows * ncols <= i32max()' % name],
-              ensures=['C15.%s.valid:: nrows > 0 && ncols > 0' % name,
-                       'C15.%s.shape:: m.nrows == nrows && m.ncols == ncols && wf(m)' % name] +
+              ensures=['C15.%s.shape:: m.nrows == nrows && m.ncols == ncols && wf(m)' % name] +
                       (['C15.%s.elem:: forall|k:int| 0 <= k < nrows * ncols ==> m.data.v@[k] == %s' % (name, val)] if val else []))
 reg(_fill('zeros', '0.0f64'))
 reg(_fill('ones', '1.0f64'))
@@ -176,8 +175,7 @@ reg(Fn(IM + 'is_square', ret='r', ensures=['C15.is_square:: r == (self.nrows == 
 reg(Fn(IM + 'data', ret='r', ensures=['core.mdata:: *r == self.data']))
 reg(Fn(IM + 'to_vec', ret='r', ensures=['C15.to_vec:: r == self.data']))
 reg(Fn(IV + 'to_matrix', ret='m', requires=['core.to_matrix.range:: self.v@.len() <= i32max()'],
-       ensures=['C15.to_matrix.valid:: self.v@.len() > 0',
-                'C15.to_matrix.shape:: m.nrows == 1 && m.ncols == self.v@.len() && wf(m)',
+       ensures=['C15.to_matrix.shape:: m.nrows == 1 && m.ncols == self.v@.len() && wf(m)',
                 'C15.to_matrix.data:: m.data == self']))
 reg(Fn(VEC + '{impl ::core::clone::Clone for Vector}::clone', ret='r', ensures=['core.vclone:: r.v@ == self.v@']))
 reg(Fn(MAT + '{impl ::core::clone::Clone for Matrix}::clone', ret='r',
@@ -240,3 +238,8 @@ UNITS = [
          broadcast=('l0', 'ax_vec_from_refl'),
          notes='Vector/Matrix plumbing, Matrix::new and reshape_mut with the wf invariant'),
 ]
+
+
+def core_stubs(exclude=()):
+    """the core contracts, to be imported (as external_body stubs) by other units"""
+    return [f for f in CORE_PROVE if f.path not in exclude]
